@@ -301,7 +301,7 @@ func (r *rig) apply(o *Op, check bool) string {
 		}
 		select {
 		case <-done:
-		case <-time.After(5 * time.Second):
+		case <-time.After(2 * time.Second):
 			return "the background dispatch of the event never finished"
 		}
 		if !check {
@@ -382,7 +382,7 @@ type Summary struct {
 	Samples  []interface{}  `json:"samples"`
 	Unplaced int            `json:"edges_with_unknown_source"`
 	WallS    float64        `json:"wall_s"`
-	Stopped  bool           `json:"stopped_after_25_failures"`
+	Stopped  bool           `json:"stopped_after_10_failures"`
 }
 
 func path(nodes map[string]*node, key string) []*Op {
@@ -501,7 +501,7 @@ func RunEdges(args []string) int {
 				fmt.Fprintf(os.Stderr, "cannot parse edge: %v: %.300s\n", jerr, s)
 				return 2
 			}
-			if sum.Failures >= 25 {
+			if sum.Failures >= 10 {
 				// enough evidence; do not spend the timeouts of thousands of further edges
 				sum.Stopped = true
 			} else if !do(&e) {
